@@ -366,6 +366,13 @@ impl<F: Write + Seek> Allocator<F> {
         debug_assert!(index <= self.fat.len());
         let fat_entries_per_sector =
             self.sectors.sector_len() / size_of::<u32>();
+        if index / fat_entries_per_sector >= self.difat.len() {
+            malformed!(
+                "FAT entry {} is beyond the {} FAT sectors listed in the DIFAT",
+                index,
+                self.difat.len()
+            );
+        }
         let fat_sector_id = self.difat[index / fat_entries_per_sector];
         let offset_within_sector = 4 * (index % fat_entries_per_sector) as u64;
         let mut sector = self
